@@ -22,7 +22,7 @@ class EngineStream(Stream):
         for i in range(n):
             r = rng.random()
             kind = ("grid_realset" if r < 0.30 else "grid_order" if r < 0.52 else "offgrid" if r < 0.78
-                    else "startup_gap" if r < 0.96 else "long")
+                    else "startup_gap" if r < 0.90 else "stall" if r < 0.97 else "long")
             yield ES.gen_engine_case(rng, kind)
 
     def run_impl(self, case):
@@ -52,6 +52,9 @@ class EngineStream(Stream):
                    "gap_in_lagging_input_at_startup" if case.get("kind") == "startup_gap" else "off_grid(outside the property)")
         for k in case.get("perturb", []):
             out.append(f"perturb={k}")
+        if case.get("kind") == "stall":
+            w = sum(a[1] for a in case["sched"] if a[0] == "w")
+            out.append("stall>60s" if w > 60 else "stall<=60s")
         if case.get("nones"):
             out.append("None_input_values")
             if any(o[1] is None for o in obs["out"][:1]):
@@ -99,7 +102,8 @@ class ThreePhaseStream(Stream):
         n = self.n_quick if tier == "quick" else self.n_thorough
         for i in range(n):
             r = rng.random()
-            yield ES.gen_three_case(rng, "three_equal_t0" if r < 0.25 else "three_gaps" if r < 0.45 else "three_any")
+            yield ES.gen_three_case(rng, "three_equal_t0" if r < 0.22 else "three_gaps" if r < 0.40
+                                    else "three_small_consumer" if r < 0.52 else "three_any")
 
     def run_impl(self, case):
         return ES.run_engines(case)
